@@ -1,6 +1,7 @@
 import BM.Proofs.Step
 import BM.Proofs.AttrsOK
 import BM.Proofs.Prov
+import BM.Proofs.ProvC
 /-
   C02: only allowlisted attributes with accepted values.
 
@@ -287,13 +288,13 @@ theorem C02_sanitizeAttrs (p : Policy) (el : Bytes) (attrs : List Attr) (aps : A
 
 /-- **C02 (byte level, plain policies)**: every attribute on every start or self-closing tag an
     HTML tokenizer reads from the returned bytes is `Kept` for an input tag of that element. -/
-theorem C02_bytes (p : Policy) (hp : Plain p.ensureInit) (input : Bytes) :
+theorem C02_bytes (p : Policy) (hp : PlainC p.ensureInit) (input : Bytes) :
     ∀ k ∈ tokenize (p.sanitizeCore input), (k.tt = .start ∨ k.tt = .selfClosing) →
       ∀ b ∈ k.attrs, ∃ t ∈ tokenize input, ∃ aps, t.data = k.data ∧
         p.ensureInit.attrRulesFor k.data = some aps ∧ Kept p.ensureInit k.data aps t.attrs b := by
   intro k hk htt b hb
   have hne : k.attrs ≠ [] := by intro h; rw [h] at hb; simp at hb
-  obtain ⟨t, ht, aps, hd, hr, hs⟩ := reread_open_tag p hp input k hk htt hne
+  obtain ⟨t, ht, aps, hd, hr, hs⟩ := reread_open_tagC p hp input k hk htt hne
   exact ⟨t, ht, aps, hd, hr, C02_sanitizeAttrs p.ensureInit k.data t.attrs aps k.attrs hs b hb⟩
 
 /-- non-vacuity: two overlapping rules, the value matches only the second -/
